@@ -11,15 +11,18 @@ EXPLANATION = ("Proved on the real code: GainLoss.__init__ accepts a fraction on
                "nor the lot's amount, the lot is not later than the event, and 'no lot' <=> earn-typed event with the full amount; the FIFO seek hands out "
                "exactly what is left of the selected lot and changes no other lot's availability (no double spending inside seek); the event set holds "
                "only taxable transactions and spans all time. The conservation over whole histories (sums per event / per lot, error iff uncoverable, "
-               "sell-everything) is checked by the bounded end-to-end stand-in.")
+               "sell-everything) is checked by the bounded end-to-end stand-in."
+               " Since session 5 also proved on the real bodies, against contracts over the engine's representation invariant engine_inv (contracts/engine.py): AccountingEngine.get_acquired_lot_for_taxable_event (same event with taxable_event_amount - acquired_lot_amount left; the lot returned is one of the engine's lots, not later than the event, with all that was available of it, > 0; no other lot's availability changes), AccountingEngine.get_next_taxable_event_and_amount (next list element with its full crypto_balance_change; same instant keeps the lot in hand with the difference; a newer event writes the remainder back and seeks again; a used-up lot is not handed out again) and tax_engine._get_next_taxable_event_and_acquired_lot; callee preconditions (the seek's wf) discharged at the call sites. Assumed and listed: prezzemolo's floor lookup as a pure function, engine_inv after initialize (its visible part pinned by shape obligations), the heap-based set_to_index/seek (A-HEAP). The while loop of _create_unfiltered_gain_and_loss_set is not proved.")
 TRUSTED = ["A-HEAP / A-AVL (heapq, prezzemolo AVL tree: not under contract)", "amounts on the 1e-11 grid", "exchange-supplied crypto_out_with_fee = amount + fee (documented meaning)"]
-ASSUMPTIONS = TRUSTED
+ASSUMPTIONS = TRUSTED + ["A-AVL/engine_inv: the engine's representation invariant holds after AccountingEngine.initialize (AVL insertions and tree walk outside the subset; visible part pinned by the establishes.* shape obligations)"]
 E2E = {"quick": 120, "thorough": 4000, "on_doubt": 600}
 
 
 def items(pr):
     return [fn("rp2.gain_loss.GainLoss.__init__"), fn(AAM + "AbstractChronologicalAccountingMethod.seek_non_exhausted_acquired_lot"),
-            fn("rp2.tax_engine._create_unfiltered_taxable_event_set"), fn("rp2.transaction_set.TransactionSet.add_entry"), custom("lot_window", lot_window)]
+            fn("rp2.tax_engine._create_unfiltered_taxable_event_set"), fn("rp2.transaction_set.TransactionSet.add_entry"), custom("lot_window", lot_window),
+            fn("rp2.accounting_engine.AccountingEngine.get_acquired_lot_for_taxable_event"), fn("rp2.accounting_engine.AccountingEngine.get_next_taxable_event_and_amount"),
+            fn("rp2.tax_engine._get_next_taxable_event_and_acquired_lot"), custom("engine_initialize", engine_initialize)]
 
 
 def vc_filter(vc):
@@ -29,6 +32,11 @@ def vc_filter(vc):
 def native(desc):
     from props import C09
     return C09.native(desc)
+
+
+def engine_initialize(pr):
+    from props import C09
+    return C09.engine_initialize(pr)
 
 
 def lot_window(pr):
@@ -45,5 +53,5 @@ MANIFEST_ENTRY = {
              "iff the lots acquired so far cannot cover a disposal) on curated + seeded random histories under all four methods and schedules."),
     "note": ("The whole-history invariant of the matcher loop is not discharged deductively (heapq / AVL tree outside the verified subset): level 'other'. "
              "Over-spending histories and the sell-everything extension are part of the bounded generator."),
-    "technique": "contract-based deductive verification of the leaf functions (sidecar contracts, VCs from the AST, z3/cvc5) + bounded native stand-in for the composition (labelled bounded)",
+    "technique": "contract-based deductive verification of the leaf functions and of the accounting-engine methods between the matcher loop and the lot seek (sidecar contracts, VCs from the AST, z3/cvc5; AVL lookups and the heap-based half as assumed contracts) + bounded native stand-in for the matcher loop's composition (labelled bounded)",
 }
